@@ -71,6 +71,7 @@ EHS = ["selalt", "baro", "roll", "track", "tar", "gs", "tas", "hdg", "ias", "mac
 
 class C10(PropBase):
     id = "C10"
+    shown_columns = ('CALLSIGN', 'ALT S', 'BARO', 'RLL', 'TAR', 'TAS', 'IAS', 'HDG', 'MACH', 'TRK', 'GSP', 'VRATE')
     corr_fields = ['ais', 'threat', 'selalt', 'baro', 'tasrc', 'roll', 'track', 'tar', 'gs', 'tas', 'hdg', 'ias', 'mach', 'vrate', 'cap0', 'cap1', 'b50age', 'trs', 'vrs', 'hds', 'turn']
     lean_modules = ["SqModel.Props.C10", "SqModel.Props.C10b", "SqModel.Proofs.Dispatch", "SqModel.Proofs.Bridge", "SqModel.Proofs.BridgeRat", "SqModel.Proofs.BridgePlane"]
     extractors = ["dispatch", "trans"]
